@@ -29,6 +29,7 @@ class IndexEnum:
         self.events = []            # (vector position, sorted tuple of (i, j) pairs)
         self.unknown = []           # constructs that could not be interpreted
         self.budget = budget
+        self.seqs = {}              # names bound to index sequences (lists of ints / tuples)
 
     # -------------------------------------------------------------- expressions
     def ev(self, e, env=None):
@@ -102,6 +103,14 @@ class IndexEnum:
                 return list(reversed(self.ev_iter(e.args[0], env)))
             if f in ('list', 'tuple') and len(e.args) == 1:
                 return self.ev_iter(e.args[0], env)
+            if f is not None and f.split('.')[-1] in ('combinations_with_replacement', 'combinations', 'product', 'permutations') \
+                    and (f.startswith('itertools.') or '.' not in f):
+                import itertools
+                fn = getattr(itertools, f.split('.')[-1])
+                if f.endswith('product'):
+                    return [tuple(x) for x in fn(*[self.ev_iter(a, env) for a in e.args])]
+                if len(e.args) == 2:
+                    return [tuple(x) for x in fn(self.ev_iter(e.args[0], env), self.ev(e.args[1], env))]
             if f is not None:
                 tgt = self.model.resolve_dotted(self.modname, f)
                 if tgt is not None and tgt[0] == 'func':
@@ -109,6 +118,30 @@ class IndexEnum:
         if isinstance(e, ast.Subscript) and isinstance(e.slice, ast.Slice) and e.slice.lower is None and e.slice.upper is None \
                 and e.slice.step is not None and norm(e.slice.step) == '-1':
             return list(reversed(self.ev_iter(e.value, env)))
+        if isinstance(e, (ast.ListComp, ast.GeneratorExp)):
+            out = []
+
+            def gen(i, scope):
+                if i == len(e.generators):
+                    out.append(self.ev(e.elt, scope))
+                    return
+                g = e.generators[i]
+                for v in self.ev_iter(g.iter, scope):
+                    sc = dict(scope)
+                    saved = self.env
+                    self.env = sc
+                    try:
+                        self.bind(g.target, v)
+                    finally:
+                        self.env = saved
+                    if all(self.ev(c, sc) for c in g.ifs):
+                        gen(i + 1, sc)
+            gen(0, dict(env))
+            return out
+        if isinstance(e, (ast.List, ast.Tuple)):
+            return [self.ev(x, env) for x in e.elts]
+        if isinstance(e, ast.Name) and e.id in self.seqs:
+            return self.seqs[e.id]
         raise NotEvaluable(norm(e))
 
     def run_generator(self, fi, args):
@@ -184,6 +217,13 @@ class IndexEnum:
             elif isinstance(st, ast.Assign) and len(st.targets) == 1 and isinstance(st.targets[0], (ast.Name, ast.Tuple)) \
                     and all(isinstance(n, (ast.Name, ast.Tuple, ast.Store, ast.Load)) for n in ast.walk(st.targets[0])):
                 names = [n.id for n in ast.walk(st.targets[0]) if isinstance(n, ast.Name)]
+                if isinstance(st.targets[0], ast.Name):
+                    self.seqs.pop(st.targets[0].id, None)
+                    try:
+                        self.seqs[st.targets[0].id] = self.ev_iter(st.value)
+                        continue
+                    except NotEvaluable:
+                        pass
                 try:
                     self.bind(st.targets[0], self.ev(st.value))
                 except NotEvaluable:
